@@ -14,8 +14,9 @@ ID = "C21"
 RULE = ("cases = 1-3 factors with 2-4 levels each (names from [a-z0-9_], never containing '|' or blanks), 1-4 "
         "experiments of 1-9 trials that are either arbitrary or drawn so that many combinations repeat, factor "
         "selection = whole crossing via block, or a subset / permutation via factors=, trial selection = None, a "
-        "subset, or a list with repeated indices. non-trivial = >= 2 rows and >= 2 selected trials; distinct = case")
-ASSUMPTIONS = ["rows are parsed by splitting at ' | ' and each cell at its first blank (names contain neither)"]
+        "subset, or a list with repeated indices; class blank_names: LEVEL names with leading / trailing / inner blanks, "
+        "upper case, numeric-looking (factor names stay blank-free). non-trivial = >= 2 rows and >= 2 selected trials; distinct = case")
+ASSUMPTIONS = ["rows are parsed by splitting at ' | ' and each cell at its first blank (factor names contain neither; level names never contain ' | ' and are compared blank-stripped)"]
 MINIMUMS = {"quick": {"tables_parsed": 600, "rows_compared": 6000, "cases_with_trial_selection": 120,
                       "cases_with_factor_subset": 120},
             "thorough": {"tables_parsed": 9000, "rows_compared": 90000, "cases_with_trial_selection": 1800,
